@@ -223,6 +223,8 @@ def check_C18(c):
     aa = gen.ALPH['atom']
     for s in gen.all_strings(aa, _q(c, 4, 5), 1):
         jobs.append(('tr_eval', dict(s=s)))
+    for s in [None, '']:                       # the two inputs that evaluate to None / are typed Null
+        jobs.append(('tr_eval', dict(s=s)))
     for s in ['true', 'false', 'null', 'NaN', 'Infinity', '-Infinity', '[1]', '{}', '[]', '[1,2]', '""', '"\\u00e9"', '"a\\nb"',
               '1e999', '-', '+1', '.5', '5.', '0x10', '1_000', '01', '"\\x"', '"a"b"', '"', '1e', '1e+', 'e5', '--1', '-0.0e-0']:
         jobs.append(('tr_eval', dict(s=s)))
